@@ -88,7 +88,10 @@ func TestVerifC06FindSegments(t *testing.T) {
 				t.Fatalf("FindSegments accepted the invalid path name %q (recordPath %q) and returned %d segments, first %q", name, tr.RecordPath, len(segs), segs[0].Fpath)
 			}
 			if err != nil && !valid && errors.Is(err, ErrNoSegmentsFound) {
-				t.Fatalf("FindSegments searched the file system for the invalid path name %q (recordPath %q): %v", name, tr.RecordPath, err)
+				// which error an invalid name is refused with is not part of the statement (an implementation may wrap
+				// ErrNoSegmentsFound without touching the file system): recorded, not judged. A search that does leave
+				// the tree is seen through the planted decoys (segments returned for an invalid name / outside the prefix).
+				classes["invalid-name-refused-as-no-segments"] = true
 			}
 			if err != nil && segs != nil {
 				t.Fatalf("FindSegments(%q) returned both an error and segments", name)
@@ -133,9 +136,9 @@ func TestVerifC06RegressFindSegmentsTraversal(t *testing.T) {
 		t.Fatal(err)
 	}
 	defer os.RemoveAll(dir)
-	os.MkdirAll(dir+"/rec/cam", 0o755)   //nolint:errcheck
-	os.MkdirAll(dir+"/decoy", 0o755)     //nolint:errcheck
-	os.MkdirAll(dir+"/rec/camx", 0o755)  //nolint:errcheck
+	os.MkdirAll(dir+"/rec/cam", 0o755)  //nolint:errcheck
+	os.MkdirAll(dir+"/decoy", 0o755)    //nolint:errcheck
+	os.MkdirAll(dir+"/rec/camx", 0o755) //nolint:errcheck
 	for _, p := range []string{"/rec/cam/", "/decoy/", "/rec/camx/", "/", "/rec/"} {
 		os.WriteFile(dir+p+"2008-11-07_11-22-00-500000.mp4", []byte("x"), 0o644) //nolint:errcheck
 	}
